@@ -94,3 +94,25 @@ def register(R):
                                                                           NOISE % ("i", "i"), NOISE % ("i - 1", "i - 1")),
                         INPUT_KEPT],
                modifies=["_columns"], check_invariant=False)
+
+    # -- LabelProbabilityInjector: frame and provenance of the resampled rows (the class frequencies are a statistical
+    #    claim outside this technique; the probability bookkeeping is opaque) ---------------------------------------------
+    LP = LM + "LabelProbabilityInjector"
+    R.klass(LP, fields={"_columns": "Opt[Opaque[Cols2]]", "_p_distribution": "Opaque[AnyList]"}, invariant=[])
+    ROWS_OUT = ("forall(i, 0, mrows(data), forall(j, 0, mcols(data), implies(i < from_index or i >= to_index, "
+                "cell(result, i, j) == old(cell(data, i, j)))))")
+    # every row of the window is a copy of some row of the window of the input
+    ROWS_IN = ("forall(i, from_index, to_index, exists(k, from_index, to_index, forall(j, 0, mcols(data), "
+               "cell(result, i, j) == old(cell(data, k, j)))))")
+    R.contract(LP + ".__call__", tags=("C20",),
+               params={"data": "Data2", "from_index": "Int", "to_index": "Int", "target_col": "Int",
+                       "class_probabilities": "Opaque[AnyDict]"},
+               requires=WINDOW + ["valid_col(data, target_col)"],
+               raises={"ValueError": {"when": "True"}},
+               ensures=[SAME, ROWS_OUT, ROWS_IN, INPUT_KEPT],
+               modifies=["_columns", "_p_distribution"], check_invariant=False,
+               loops={0: {"index": "k0", "invariant": []},
+                      1: {"index": "k1", "types": {"sample_idxs_grouped": "IdxBag"},
+                          "havoc_locals": ["sample_idxs_grouped", "cls", "cls_idx", "p_individual"],
+                          "havoc_fields": {"_p_distribution": "Opaque[AnyList]"},
+                          "invariant": ["bag_within(sample_idxs_grouped, from_index, to_index)"]}})
